@@ -90,6 +90,16 @@ CHECKS = {
          "Every configured KDC is a loopback endpoint whose UDP side behaves as one of {answers, refuses, silent, KRB-ERROR, response-too-big, empty datagram} and whose TCP side as one of {answers, refuses, silent, KRB-ERROR, closes at once / inside the length prefix / inside the body}, crossed with udp_preference_limit in {1, smaller than the request, larger}: exhaustive for 1 KDC, exhaustive (thorough) or restricted to <= 1 silent side (quick) for 2 KDCs, seeded samples for 3 KDCs, plus a TGS sample. The result of Login/GetServiceTicket must lie in the set of outcomes the assignment permits (order-independent because the library randomises the KDC order) and the attempts seen by the endpoints must stay within 2 x transports x KDCs.",
          "Trusts simkdc endpoints (private port pool so that a refusing side cannot be re-bound). Garbage (non-Kerberos) replies are not part of the statement and not enumerated.",
          "5.C12"),
+ "C18": ("runtime monitor with scripted HTTP servers: recorded request histories judged by request bound, independent acceptor on every token, body hash",
+         "exploration",
+         "Scripted servers on 127.0.0.1 and localhost answer the k-th request of one spnego.Client.Do call with the k-th symbol of a script: every sequence of length <= 3 (quick) / 5 (thorough) over {200, 401 bare Negotiate, 401 Negotiate+reject token, 401 other scheme, 302 same host, 302 other host, 500} followed by each constant tail (exhaustive), crossed with seeded method, body size up to 1 MiB (known and unknown length), explicit vs URL-derived SPN and the six etypes of the service ticket. Every request is recorded; at most 64 requests per call; a challenge to an unauthenticated request must be followed by a retry whose token the reference acceptor (holding the service key of the intended SPN) accepts with an RFC 4121 4.1.1 checksum; bodies of authenticated requests must equal the original (length and SHA-256); Do must return the last response or an error.",
+         "Acceptor = ref/accept (fresh replay state per token); the JDK GSS acceptor of the design is not wired in. Servers answer 401 to unauthenticated requests before reading the body.",
+         "5.C18"),
+ "C20": ("runtime monitor: planted high-entropy secrets + multi-encoding scanner over every observed output surface",
+         "exploration",
+         "Markers are planted as client password, client/service keytab keys, krbtgt keys (KDC side only), session keys (from the simulated KDC issue log), authenticator subkeys and a new password sent through a simulated kpasswd service; after each scenario (logins per credential kind x etype x pre-auth policy, wrong secret, forced KDC errors, unreachable KDC, password change ok/error, service-side verification of valid and defective AP-REQs incl. the HTTP handler, truncation of secret-bearing keytab/ccache files at every offset plus seeded corruptions, Keytab.AddEntry) every observed output - Client.Print/Diagnostics, JSON/gob dumps, logger output, Error()/%+v/%#v of every returned error, Marshal() of Ticket/AP-REQ/AS-REP/KRB-PRIV after decryption, HTTP responses - is scanned for every secret in raw, hex, base64/base64url (3 alignments) and UTF-16LE form.",
+         "Scanner self-test plants each encoding at 7 alignments at every run. Keytab.String()/entry.String() print keys by design and are not scanned. Single-byte corruptions of ccache files are disabled until the ccache reader bounds its counts (they kill the process: C04).",
+         "5.C20"),
 }
 
 NOT_YET = "check not built yet in this revision of /verif (construction in progress, see DESIGN.md section 9)"
